@@ -14,6 +14,8 @@ import (
 	"time"
 
 	"github.com/mutagen-io/mutagen/pkg/synchronization/core"
+
+	"verif/internal/fsx"
 )
 
 func itoa(i int) string { return strconv.Itoa(i) }
@@ -197,19 +199,25 @@ func rootDigests(root string) map[string][]string {
 }
 
 // heartbeat is the control of the control-relative time scheme: a goroutine
-// that sleeps 50 ms at a time and records the largest gap it observed.
+// that sleeps 50 ms at a time and records every gap between its ticks.
 type heartbeat struct {
 	mu     sync.Mutex
+	last   time.Time
+	gaps   []hbGap // gaps above 150 ms
 	maxGap time.Duration
 	stop   chan struct{}
 	done   chan struct{}
 }
 
+type hbGap struct {
+	end time.Time
+	gap time.Duration
+}
+
 func startHeartbeat() *heartbeat {
-	h := &heartbeat{stop: make(chan struct{}), done: make(chan struct{})}
+	h := &heartbeat{stop: make(chan struct{}), done: make(chan struct{}), last: time.Now()}
 	go func() {
 		defer close(h.done)
-		last := time.Now()
 		for {
 			select {
 			case <-h.stop:
@@ -217,11 +225,14 @@ func startHeartbeat() *heartbeat {
 			case <-time.After(50 * time.Millisecond):
 			}
 			now := time.Now()
-			gap := now.Sub(last)
-			last = now
 			h.mu.Lock()
+			gap := now.Sub(h.last)
+			h.last = now
 			if gap > h.maxGap {
 				h.maxGap = gap
+			}
+			if gap > 150*time.Millisecond {
+				h.gaps = append(h.gaps, hbGap{now, gap})
 			}
 			h.mu.Unlock()
 		}
@@ -229,13 +240,17 @@ func startHeartbeat() *heartbeat {
 	return h
 }
 
-// reset clears the recorded maximum and returns the old value.
-func (h *heartbeat) reset() time.Duration {
+// maxSince returns the largest heartbeat gap that overlaps the window [t0, now].
+func (h *heartbeat) maxSince(t0 time.Time) time.Duration {
 	h.mu.Lock()
 	defer h.mu.Unlock()
-	g := h.maxGap
-	h.maxGap = 0
-	return g
+	m := time.Since(h.last)
+	for _, g := range h.gaps {
+		if !g.end.Before(t0) && g.gap > m {
+			m = g.gap
+		}
+	}
+	return m
 }
 
 func (h *heartbeat) max() time.Duration {
@@ -320,4 +335,31 @@ func (q *workQueue) wait() {
 	q.cond.Broadcast()
 	q.mu.Unlock()
 	q.wg.Wait()
+}
+
+// fsxMu serializes the calls into fsx's generators: fsx.UniqueToken keeps a
+// process-wide counter that is not safe for concurrent use.
+var fsxMu sync.Mutex
+
+// token returns content unique within the process (goroutine-safe wrapper around fsx.UniqueToken).
+func token(r *rand.Rand, size int) []byte {
+	fsxMu.Lock()
+	defer fsxMu.Unlock()
+	return fsx.UniqueToken(r, size)
+}
+
+// content returns file content of exactly the given size: empty for 0, random
+// letters for tiny sizes, a process-unique token (padded) otherwise.
+func content(r *rand.Rand, size int) []byte {
+	if size <= 0 {
+		return []byte{}
+	}
+	if size < 48 {
+		out := make([]byte, size)
+		for i := range out {
+			out[i] = byte('a' + r.Intn(26))
+		}
+		return out
+	}
+	return token(r, size)
 }
